@@ -110,7 +110,17 @@ def run_cmd(cmd, cwd, timeout=3600, env=None):
 
 def theorem_names(prop_id):
     """names of the theorems in EpModel/Props/<id>.lean (fully qualified)."""
-    path = os.path.join(LEAN_DIR, "EpModel", "Props", prop_id + ".lean")
+    pdir = os.path.join(LEAN_DIR, "EpModel", "Props")
+    names = []
+    files = sorted(fn for fn in os.listdir(pdir) if re.fullmatch(re.escape(prop_id) + r"[A-Za-z_]*\.lean", fn))
+    if prop_id + ".lean" not in files:
+        raise OSError("no theorem file for " + prop_id)
+    for fn in files:
+        names.extend(_theorem_names_in(os.path.join(pdir, fn)))
+    return names
+
+
+def _theorem_names_in(path):
     names = []
     ns = []
     with open(path) as f:
